@@ -542,7 +542,9 @@ func (se *specEnv) evalSel(n *SSel) (specVal, error) {
 		}
 		ft := st.Field(idx).Type()
 		if _, isMod := e.tr.isModuleStruct(pt.Elem()); !isMod {
-			return specVal{}, fmt.Errorf("fields of external type %s are not modelled", pt.Elem())
+			// opaque external struct: the field lives at base + (index+1), exactly as the encoder addresses it
+			rv := se.e.loadPtr(se.cur, App(SInt, "+", xv.t, IntLit(int64(idx+1))), ft)
+			return specVal{t: rv, typ: ft}, nil
 		}
 		if _, fmod := e.tr.isModuleStruct(ft); fmod {
 			slot := e.tr.layout(pt.Elem()).slots[idx]
@@ -837,6 +839,21 @@ func (se *specEnv) evalCall(n *SCall) (specVal, error) {
 			e.heldNamed = append(e.heldNamed, addr)
 		}
 		h := e.lookup(se.cur, "L$held", ArraySort(SInt, SInt))
+		return specVal{t: Not(Eq(Select(h, addr), IntLit(0)))}, nil
+	case "heldLocker":
+		// heldLocker(l): this thread holds the sync.Locker value l (e.g. p.cond.L)
+		as, err := args()
+		if err != nil {
+			return specVal{}, err
+		}
+		if as[0].t.Sort != SIface {
+			return specVal{}, fmt.Errorf("heldLocker: argument is not an interface value")
+		}
+		h := e.lookup(se.cur, "L$held", ArraySort(SInt, SInt))
+		addr := App(SInt, "ival", as[0].t)
+		if se.cur == e.entry && !se.pure {
+			e.heldNamed = append(e.heldNamed, addr)
+		}
 		return specVal{t: Not(Eq(Select(h, addr), IntLit(0)))}, nil
 	case "visited":
 		// visited(k): key k has already been produced by the (single) range-over-map loop of this function
